@@ -79,11 +79,30 @@ def check(case):
     n = case["n_samples"]
     prec = case["precision"]
     np.random.seed(case["seed"])
+    prelude = case.get("prelude")
+    if prelude:
+        # multi-step history with ONE sampler object and ONE continuum object: an earlier computation (other ground
+        # truth), optionally followed by an in-place edit of the continuum, must not leak into the computation under test
+        from pyannote.core import Segment
+        with fastguard.guard():
+            lib_call("compute_gamma[prelude]", c.compute_gamma, d, n_samples=1, precision_level=None,
+                     ground_truth_annotators=prelude["ground_truth"], sampler=rec, fast=(mode == "fast"), soft=(mode == "soft"))
+        if prelude.get("edit"):
+            lab = cont["units"][0][3]
+            extra = [["Zoe", 2.0, 5.0, lab], [sorted(per)[0], 40.0, 47.5, lab]]
+            for a, s_, e_, l_ in extra:
+                c.add(a, Segment(s_, e_), l_)
+            cont = dict(cont, annotators=list(cont["annotators"]) + ["Zoe"], units=cont["units"] + extra)
+            per = oracle.per_annotator(cont)
+            if gt is None:
+                gt_names = sorted(per)
+        rec.draws.clear()
+        rec.inits.clear()
     with fastguard.guard():
         g = lib_call("compute_gamma", c.compute_gamma, d, n_samples=n, precision_level=prec,
                      ground_truth_annotators=None if gt is None else list(gt), sampler=rec,
                      fast=(mode == "fast"), soft=(mode == "soft"))
-    classes = [f"mode={mode}", f"sampler={kind}", "gt-subset" if gt is not None else "gt-all",
+    classes = [f"mode={mode}", f"sampler={kind}", ("prelude+edit" if prelude.get("edit") else "prelude") if prelude else "single-call", "gt-subset" if gt is not None else "gt-all",
                "precision=None" if prec is None else ("precision=named" if isinstance(prec, str) else "precision=float")]
     tolr = oracle.REL_TOL
     # ---- 1. observed disorder
@@ -194,6 +213,8 @@ def check(case):
         classes.append("identical-annotators")
         if not oracle.close(gam, 1.0, rel=1e-6):
             raise Violation("gamma-not-1-for-identical-annotators", f"{gam}")
+    if spec["delta"] < 1e-3 or spec["delta"] > 1e3:
+        classes.append("extreme-delta-scale")
     nontrivial = len(chance) >= 2 and (second_batch or gt is not None or mode != "exact" or kind != "statistical")
     return {"nontrivial": nontrivial, "classes": classes}
 
@@ -215,12 +236,33 @@ def cases(tier):
         else:
             cs["precision"] = draw(st.one_of(st.none(), st.none(), st.sampled_from(["low", 0.1, 0.1, 0.3]),
                                              st.floats(0.03 if tier == "thorough" else 0.08, 0.9, allow_nan=False).map(lambda x: round(x, 3))))
+        nonempty = sorted({u[0] for u in cs["continuum"]["units"]})
+
+        def with_units(gt):
+            # precondition of the samplers: some ground-truth annotator has units (otherwise every sample is empty)
+            return gt if any(a in nonempty for a in gt) else sorted(set(gt[1:]) | {nonempty[0]})
         if len(names) > 2 and draw(st.booleans()):
             k = draw(st.integers(2, len(names)))
-            cs["ground_truth"] = sorted(draw(st.permutations(names))[:k])
+            cs["ground_truth"] = with_units(sorted(draw(st.permutations(names))[:k]))
         else:
             cs["ground_truth"] = None
         cs["seed"] = draw(st.integers(0, 2 ** 31 - 1))
+        if draw(st.integers(0, 3)) == 0:
+            pg = None
+            if len(names) > 2 and draw(st.booleans()):
+                pg = with_units(sorted(draw(st.permutations(names))[:2]))
+            cs["prelude"] = {"ground_truth": pg, "edit": draw(st.booleans())}
+        if draw(st.integers(0, 7)) == 0:
+            # extreme scales of delta_empty: gamma is scale-free, absolute thresholds inside the library are not
+            sc = draw(st.sampled_from([1e-9, 1e-6, 1e5]))
+            def rescale(sp):
+                sp = dict(sp)
+                sp["delta"] = sc
+                for key in ("pos", "cat"):
+                    if sp.get(key):
+                        sp[key] = rescale(sp[key])
+                return sp
+            cs["dissim"] = rescale(cs["dissim"])
         if cs["mode"] == "fast" and draw(st.booleans()):
             # long sequential continuum: fast-gamma's estimated window is finite there
             spec = draw(gen.dissim_specs(kinds=("combined", "combined", "pos"), equal_delta_only=True))
@@ -231,6 +273,8 @@ def cases(tier):
             cs["sampler"] = "statistical"
             cs["n_samples"] = draw(st.integers(1, 3))
             cs["precision"] = None
+            if "prelude" in cs:
+                cs["prelude"] = {"ground_truth": draw(st.sampled_from([None, ["a", "b"], ["b", "c"]])), "edit": cs["prelude"]["edit"]}
             cs["ground_truth"] = draw(st.sampled_from([None, None, ["a", "b"], ["a", "c"], ["a", "b", "c"]]))
         return cs
     return strat()
